@@ -64,7 +64,9 @@ C03ok(e) == C03okWith(e, StrictAllowed(e))
 
 \* Known finding F4: the lenient request-side scanner (ReqParse.tla) strips the brackets around ANY host, so a
 \* bracketed host that is not an IPv6 literal is looked up by its content. An offending event is an instance of F4
-\* exactly when its host is bracketed and the response is right under that lenient reading and wrong only for it.
+\* exactly when its host is bracketed and the response is right under that lenient reading and wrong only for it
+\* (the strict recogniser is permissive about what may stand between brackets - `[::.a]` passes it - so its verdict on
+\* the brackets' content is deliberately not part of the classification).
 ValueOf(h) == IF h # <<>> /\ h[1] = 91 THEN SubSeq(h, 2, Len(h) - 1) ELSE h
 LenientAllowed(e) ==
   LET pr == IF e.no > 0 THEN Parse(e.o1b) ELSE [ok |-> FALSE] IN
@@ -76,7 +78,6 @@ LenientAllowed(e) ==
 BracketedHost(b) == \E i \in 1..(Len(b) - 3) : b[i] = 58 /\ b[i + 1] = 47 /\ b[i + 2] = 47 /\ b[i + 3] = 91
                                                 /\ \A j \in 1..(i - 1) : b[j] # 58
 C03isF4(e) == /\ ~C03ok(e) /\ e.no > 0 /\ BracketedHost(e.o1b)
-              /\ ~SerializedOrigin(e.o1b).ok
               /\ C03okWith(e, LenientAllowed(e))
 
 (***************************************************************************)
